@@ -32,9 +32,11 @@ func runC03(c *Ctx) {
 	c03Masked(c)
 	c02FoundPrefix(c, "C03.found-prefix")
 	c03Squash(c)
+	c03RearrangePrivate(c)
 	handoverRule(c, "C03.handover", "dnsdata")
 	c09V4Predicate(c, "C03")
 	c02MapWalk(c, "C03")
+	c02ClosestExact(c, "C03.closest-exact")
 }
 
 func c03Markers(c *Ctx) {
